@@ -61,6 +61,22 @@ def check_c13(tier, seed, V, facts, names_path):
             c["sink"] = {"kind": "direct"}
         cases.append(c)
     obs = replay(cases, tag)
+    # the same faults through serialize_with_schema (the same machine: schema mode only adds rows)
+    scases = [dict(c, api="schema") for c in cases]
+    sobs = replay(scases, tag + "_schema")
+    for b, o in zip(beh, sobs):
+        key = b["key"]
+        if o is None or "error" in o or "abort" in o:
+            continue
+        s = o["ser"] if "ser" in o else o
+        faulty = b["fault"][0] != "none"
+        V.count((key, json.dumps(b["v"]), json.dumps(b["fault"]), "schema"), True)
+        rep = {"behaviour": {k: b[k] for k in ("key", "v", "fault")}, "api": "serialize_with_schema", "observed": s}
+        if faulty and s["st"] == "ok":
+            V.violate(f"C13:schema-success:{key}", f"{key}: serialize_with_schema reported success although the sink "
+                      f"{describe(b['fault'])}", rep)
+        elif faulty and s["st"] == "panic":
+            V.violate(f"C13:schema-panic:{key}", f"{key}: serialize_with_schema panicked when the sink {describe(b['fault'])}", rep)
     nfault = 0
     for b, c, o in zip(beh, cases, obs):
         key = b["key"]
